@@ -40,7 +40,7 @@ def tla_entry(e):
     return '[kind |-> "%s", name |-> %s, target |-> %s]' % (e["kind"], tla_seq(e["name"]), tla_seq(e["target"]))
 
 
-def x_run(ctx, names, targets, maxentries, dev=(), emit=True, invs=True, kinds=("dir", "file", "sym", "hard"),
+def x_run(ctx, names, targets, maxentries, dev=(), emit=True, invs=True, kinds=("dir", "dirc", "file", "sym", "hard"),
           expect_violation=False, simulate=None, depth=None, tag="MCX", only=None):
     """only: list of archives -> TLC extracts exactly these (hist kept in the view): used to ask what a given
     deviation predicts for archives observed on the real code"""
@@ -65,7 +65,7 @@ def arch_text(arch):
         elif e["kind"] == "hard":
             out.append(n + " => " + "/".join(e["target"]))
         else:
-            out.append(n + ("/" if e["kind"] == "dir" else ""))
+            out.append(n + ("/" if e["kind"] == "dir" else "/ (mode 0750)" if e["kind"] == "dirc" else ""))
     return "[" + ", ".join(out) + "]"
 
 
@@ -141,6 +141,8 @@ X_WORLD = [
     {"p": ["w", "s"], "k": "file", "i": 2, "abs": False, "t": [], "m": "d", "c": "s"},
     {"p": ["w", "t"], "k": "dir", "i": 0, "abs": False, "t": [], "m": "d", "c": ""},
     {"p": ["w", "t", "s"], "k": "file", "i": 3, "abs": False, "t": [], "m": "d", "c": "s"},
+    {"p": ["w", "ox"], "k": "dir", "i": 0, "abs": False, "t": [], "m": "d", "c": ""},
+    {"p": ["w", "ox", "s"], "k": "file", "i": 4, "abs": False, "t": [], "m": "d", "c": "s"},
 ]
 
 
